@@ -246,6 +246,31 @@ def r_pickler_name(e, R):
             "the worker re-selects the recorded pickler before running the task", call.short, "set_loky_pickler(self.loky_pickler)",
             "the worker runs the task (and pickles its result) with whatever pickler it last used, not the one selected at submission",
             e.loc(call, call.node))
+    # ... and it stays selected until the result has been sent back: the result (or the exception) is serialised by the worker
+    # *after* the call item returned, so any later re-selection inside the call item or between the call and the send-back
+    # makes the result travel with another pickler than the one chosen at submission.
+    others = [n for n in g.nodes for c in calls_in(n) if setn in e.callees_of(c) and n not in sets]
+    for s_ in sets:
+        late = [o for o in others if g.find_path(s_, lambda x, o=o: x is o, use_exc=True) is not None]
+        R.check(not late, "R-PICKLER-NAME", "the recorded pickler stays selected when the call item returns (the result is pickled afterwards)", call.short,
+                norm(late[0].ast)[:70] if late else "no later set_loky_pickler", "the call item re-selects another pickler before returning: the result / exception of the "
+                "task is serialised with the worker's own default instead of the pickler selected at submission", e.loc(call, late[0].ast) if late else None)
+    w = a.worker_main
+    wg = e.cfg(w)
+    tv = None
+    for n in func_nodes(w):
+        if isinstance(n, ast.Assign) and isinstance(n.targets[0], ast.Name) and isinstance(n.value, ast.Call) and e.receiver_objs(w, n.value, ("get",)) & a.callq:
+            tv = n.targets[0].id
+    taskn = [n for n in wg.nodes for c in calls_in(n) if isinstance(c.func, ast.Name) and c.func.id == tv]
+    sends = [n for n in wg.nodes for c in calls_in(n) if e.call_has_effect(w, c, lambda f_, c_: bool(e.receiver_objs(f_, c_, ("put",)) & a.resq))]
+    resel = [n for n in wg.nodes for c in calls_in(n) if e.call_has_effect(w, c, lambda f_, c_: setn in e.callees_of(c_)) and n not in taskn]
+    if not taskn or not sends:
+        raise AnalysisError("worker: task call / result send-back not found")
+    for t in taskn:
+        bad = [r for r in resel if wg.find_path(t, lambda x, r=r: x is r, avoid=sends, use_exc=True) is not None]
+        R.check(not bad, "R-PICKLER-NAME", "worker: no re-selection of the pickler between running a task and sending its result", w.short,
+                norm(bad[0].ast)[:70] if bad else "task call ... send-back", "the pickler is changed between the task and the serialisation of its result",
+                e.loc(w, bad[0].ast) if bad else None)
     # the name is part of what travels: plain attribute of a default-pickled object
     R.check("__getstate__" not in ci.methods and "__reduce__" not in ci.methods, "R-PICKLER-NAME", "the recorded name travels with the call item (default pickling)",
             ci.name, "no custom __reduce__", "custom pickling of the call item may drop the pickler name", None)
